@@ -4,7 +4,7 @@ CONSTANTS
   MaxNS = 12
   Steps <- ThorSteps
   NoneV <- MCNone
-  Variant = "orig"
+  Variant = "fixed"
 INVARIANT Transparent
 POSTCONDITION Export
 CHECK_DEADLOCK FALSE
